@@ -32,6 +32,10 @@ def lattice(tier: str, what: str = "c01") -> List[Cfg]:
                 cfgs.append(Cfg.of(c, "base", "RuleDB", **kw))
             cfgs.append(Cfg.of(c, "ver:e,a", "RuleDB", expand_verified=True))
             cfgs.append(Cfg.of(c, "base", "Forest", compressed=True))
+            for db in ("RuleDB", "Forest"):
+                cfgs.append(Cfg.of(c.with_(stats=("a", "ab")), "marked", db, marked=True))
+                # a product whose child carries the parent's statistics under permuted names
+                cfgs.append(Cfg.of(c.with_(stats=("a", "b")), "rfswap", db))
             for pk in ("base+iter", "inf1+iter"):
                 for db in ("RuleDB", "Forget"):
                     cfgs.append(Cfg.of(c, pk, db))
@@ -57,6 +61,11 @@ def lattice(tier: str, what: str = "c01") -> List[Cfg]:
                         cfgs.append(Cfg.of(c.with_(stats=("a",)), "ver:a,b", "RuleDB", expand_verified=ev, smallest=sm, debug=dbg))
             cfgs.append(Cfg.of(c, "base", "Forest", compressed=True))
             cfgs.append(Cfg.of(c.with_(stats=("a", "ab")), "norm+sym", "RuleDB", compressed=True))
+            for db in DBS:
+                cfgs.append(Cfg.of(c, "marked", db, marked=True))
+                cfgs.append(Cfg.of(c.with_(stats=("a", "ab")), "marked+norm", db, marked=True))
+                cfgs.append(Cfg.of(c.with_(stats=("a", "b")), "rfswap", db))
+                cfgs.append(Cfg.of(c.with_(stats=("a", "b")), "norm+rfswap+sym", db))
             for pk in ("base+iter", "inf1+iter", "norm+iter", "sym+iter", "rfac+iter"):
                 for db in ("RuleDB", "Forget"):
                     cfgs.append(Cfg.of(c, pk, db))
@@ -76,6 +85,11 @@ def g_lattice(tier: str) -> List[Any]:
     from mc.search import GCfg
 
     res: List[Any] = []
+    # universes in which a class is only available through a reverse (quotient) rule, and
+    # their circular variants in which nothing exists
+    for g, pk, _genuine in dg.reverse_universes():
+        for db in ("Forest", "ForestNR", "RuleDB"):
+            res.append(GCfg(g, (), pk, db))
     if tier == "quick":
         for g in dg.grammars("one"):
             for db in ("RuleDB", "Forest"):
